@@ -989,3 +989,52 @@ let () =
         | RetClose e -> Printf.sprintf "c:%s:%s" (oerr_name e) (tail ob)
         | RetReset -> "R:" ^ tail ob) obs)
     | _ -> "badargs")
+
+(* bzlife <hexdata|-> <buffered 0/1> <fills|-> <reads|-> op... ;
+   op = r<n> | c | R/<hexdata|->/<buffered>/<fills|->/<reads|-> :
+   lifecycle histories of bzip2.Reader (Bzip2/ImplLife.v bz_life): NewReader over the first
+   scripted source, then Read / Close / Reset calls; one observation per call, cut at the
+   first crash as the harness does *)
+let () =
+  let fmt_bytes (l : n list) : string =
+    let len = List.length l in
+    if len = 0 then "-"
+    else if len <= 48 then hex_of_bytes l
+    else begin
+      let h = ref 0 in
+      List.iter (fun x -> h := (!h * 1000003 + int_of_n x + 1) land (1 lsl 40 - 1)) l;
+      Printf.sprintf "H%d.%d" len !h end in
+  (* unary naturals are immutable: the big buffer sizes are built once *)
+  let memo : (int, nat) Hashtbl.t = Hashtbl.create 64 in
+  let nat_tr i = let rec go i acc = if i <= 0 then acc else go (i - 1) (S acc) in go i O in
+  let nat_of_int i = match Hashtbl.find_opt memo i with
+    | Some v -> v
+    | None -> let v = nat_tr i in Hashtbl.replace memo i v; v in
+  let ints s = if s = "-" then [] else List.rev (List.rev_map (fun x -> nat_of_int (int_of_string x)) (String.split_on_char ',' s)) in
+  let crashed (o : bzlobs) = match o.bl_err with Some EPanic | Some EFuel -> true | _ -> false in
+  let fmt_obs (o : bzlobs) : string =
+    if crashed o then (match o.bl_err with Some EFuel -> "Fuel" | _ -> "Panic") else
+    let tail = Printf.sprintf "%s:%s:%s:%d" (oerr_name o.bl_err)
+                 (z_to_string o.bl_inOff) (z_to_string o.bl_outOff) (int_of_nat o.bl_srcPos) in
+    match o.bl_kind with
+    | BkRead -> Printf.sprintf "r:%s:%s" (fmt_bytes o.bl_bytes) tail
+    | BkClose -> "c:" ^ tail
+    | BkReset -> "R:" ^ tail in
+  register "bzlife" (fun args -> match args with
+    | hex :: bf :: fills :: reads :: ops ->
+      let op_of s =
+        if s = "c" then BClose
+        else if s.[0] = 'r' then BRead (nat_of_int (int_of_string (String.sub s 1 (String.length s - 1))))
+        else match String.split_on_char '/' s with
+          | ["R"; h; b; f; r] -> BReset (bytes_of_hex h, b = "1", ints f, ints r)
+          | _ -> failwith "bzlife op" in
+      (* run call by call so that a crash ends the history (and the work) where the harness stops *)
+      let rec go st ops acc = match ops with
+        | [] -> List.rev acc
+        | o :: r ->
+          let (ob, st') = bz_op st o in
+          if crashed ob then List.rev (fmt_obs ob :: acc) else go st' r (fmt_obs ob :: acc) in
+      let l = go (bz_new (bytes_of_hex hex) (bf = "1") (ints fills) (ints reads)) (List.map op_of ops) [] in
+      if l = [] then "-" else String.concat "," l
+    | _ -> "badargs")
+
